@@ -128,6 +128,10 @@ class Ctx:
         self.notes = []
         self.facts_path = facts_path
         self._rule_stack = []
+        al = getattr(facts, 'aliases', None) or {}
+        for kind, m in al.items():
+            for newn, oldn in sorted(m.items()):
+                self.notes.append(f'{kind[:-1]} `{newn}` is analysed under its pinned name `{oldn}` (recognised as a rename/move; sa/py/aliases.py)')
 
     def fn(self, *a, **k):
         f = self.facts.fn(*a, **k)
